@@ -39,10 +39,10 @@ fn digest_profiles() -> Vec<Profile> {
     // sizes above 2^56 are rejected before any allocation and are part of the stream
     vec![
         Profile::base(),
-        Profile::sharing(),
+        Profile { intrusions: false, ..Profile::sharing() },
         Profile { callback_panics: true, ..Profile::panics() },
         Profile::statics(),
-        Profile { overflow_sizes: true, w_reserve: 16, w_shrink: 8, ..Profile::sharing() },
+        Profile { overflow_sizes: true, w_reserve: 16, w_shrink: 8, intrusions: false, ..Profile::sharing() },
         Profile { w_extend: 14, w_convert: 8, ..Profile::faults() },
     ]
 }
@@ -71,7 +71,7 @@ pub fn digest_histories(seed: u64, count: usize) -> Vec<History> {
                 // behaviour when the allocator refuses a request is part of "the same behaviour in every
                 // configuration": one of the first requests of the history fails (configurations built without
                 // the hooks cannot inject it and skip these histories)
-                h.plan = Plan { faults: vec![(out.len() % 7) as u64] };
+                h.plan = Plan { faults: vec![(out.len() % 7) as u64], intrude: None };
             }
             out.push(h);
         }
